@@ -197,6 +197,13 @@ func newHistCfg(index int, rng *mrand.Rand, pool map[string][]*poolKey, ca *caSe
 	if rng.IntN(3) == 0 {
 		badAt = 1 + rng.IntN(nGood-1)
 	}
+	// sometimes one generation only re-labels the active key of the previous one: same key material under another id,
+	// with or without further (new) keys in the store. Needs the "first entry signs" mode (no signer key_id).
+	relabelAt := -1
+	if c.KeyID == "" && rng.IntN(2) == 0 {
+		relabelAt = 1 + rng.IntN(nGood-1)
+	}
+	var prevGood *genSpec
 	for i := 0; i < nGood; i++ {
 		if i == badAt {
 			bads := []string{"duplicate-kid", "no-digital-signature-usage", "unsupported-block"}
@@ -214,12 +221,17 @@ func newHistCfg(index int, rng *mrand.Rand, pool map[string][]*poolKey, ca *caSe
 		if prefer != nil {
 			p = prefer()
 		}
-		g, err := buildStore(len(c.Gens), storeOpts{Tag: fmt.Sprintf("h%d-g%d", index, len(c.Gens)), NEntries: 1 + rng.IntN(maxEntries),
-			StableKid: c.KeyID, Password: c.Password, Prefer: p}, pk, ca, rng)
+		so := storeOpts{Tag: fmt.Sprintf("h%d-g%d", index, len(c.Gens)), NEntries: 1 + rng.IntN(maxEntries),
+			StableKid: c.KeyID, Password: c.Password, Prefer: p}
+		if i == relabelAt && prevGood != nil {
+			so.Relabel = prevGood.Entries[prevGood.Active]
+		}
+		g, err := buildStore(len(c.Gens), so, pk, ca, rng)
 		if err != nil {
 			return nil, err
 		}
 		c.Gens = append(c.Gens, g)
+		prevGood = g
 	}
 	return c, nil
 }
@@ -374,6 +386,31 @@ type histResult struct {
 	Unobs    int       `json:"reloads_not_observed,omitempty"`
 	Paired   int       `json:"tokens_verified_against_a_later_fetched_key_set,omitempty"`
 	AfterTok int       `json:"key_sets_fetched_after_a_token_of_a_reloaded_generation,omitempty"`
+	// generations that only re-label the active key of their predecessor (all / with further keys in the store)
+	Relabels     int `json:"generations_relabelling_the_active_key,omitempty"`
+	RelabelsMore int `json:"generations_relabelling_the_active_key_and_adding_keys,omitempty"`
+	// a new token and the key set taken after everything else had finished (signer histories)
+	Final *finalView  `json:"final,omitempty"`
+	Storm *stormStats `json:"storm,omitempty"`
+}
+
+type finalView struct {
+	TokenGen  int `json:"token_generation"`
+	KeySetGen int `json:"key_set_generation"`
+	LastGood  int `json:"last_generation_loaded"`
+}
+
+// relabels counts the generations whose active key is the previous generation's active key under another id.
+func (c *histCfg) relabels() (n, withFurtherKeys int) {
+	for _, g := range c.Gens {
+		if g.Bad == "" && g.Entries[g.Active].Relabelled {
+			n++
+			if len(g.Entries) > 1 {
+				withFurtherKeys++
+			}
+		}
+	}
+	return n, withFurtherKeys
 }
 
 func (c *histCfg) kinds() []string {
@@ -443,6 +480,7 @@ func runSignerHistory(seed int64, h int, pool map[string][]*poolKey, ca *caSet, 
 	}
 	res.Cfg = cfg
 	res.Kinds = cfg.kinds()
+	res.Relabels, res.RelabelsMore = cfg.relabels()
 	path := filepath.Join(dir, fmt.Sprintf("ks-%d.pem", h))
 	if err := atomicWrite(path, cfg.Gens[0].pem); err != nil {
 		res.Harness = err.Error()
@@ -488,6 +526,7 @@ func runSignerHistory(seed int64, h int, pool map[string][]*poolKey, ca *caSet, 
 		}
 	}
 	var wg sync.WaitGroup
+	var lastGood atomic.Int64 // last good generation whose reload has returned (0: the initial one)
 
 	// reloader: atomically replaces the file, then delivers the change notification synchronously
 	wg.Add(1)
@@ -512,6 +551,9 @@ func runSignerHistory(seed int64, h int, pool map[string][]*poolKey, ca *caSet, 
 				gen = -1
 			}
 			rec.rec(sEv{Client: 0, Kind: "reload", Gen: gen, Call: c, Ret: ret})
+			if gen >= 0 {
+				lastGood.Store(int64(gen))
+			}
 			if rr.IntN(2) == 0 {
 				time.Sleep(time.Duration(rr.IntN(400)) * time.Microsecond)
 			}
@@ -627,6 +669,27 @@ func runSignerHistory(seed int64, h int, pool map[string][]*poolKey, ca *caSet, 
 		}(c)
 	}
 	wg.Wait()
+	// quiescence: all reloads are done. A new token verifies against the key set fetched after it, both belong to the
+	// last generation that was put in place.
+	if lg := int(lastGood.Load()); lg >= 0 {
+		ctx := newReqCtx(nil)
+		if err := fins[0].Execute(ctx, &subject.Subject{ID: "u1", Attributes: map[string]any{}}); err == nil {
+			raw := tokenFromHeader(ctx.UpstreamHeaders().Get(cfg.headerName()))
+			tv, _ := u.checkToken(raw)
+			body, _ := gojson.Marshal(jose.JSONWebKeySet{Keys: cc.r.Keys()})
+			sg, _ := u.checkJWKS(body)
+			res.Final = &finalView{TokenGen: tv.Gen, KeySetGen: sg, LastGood: lg}
+			detail := map[string]any{"token": tv, "key_set": string(body)}
+			if why := verifiesAgainstKeySet(raw, body); why != "" {
+				rec.problem(problem{Sig: "token-does-not-verify-against-key-set", Text: fmt.Sprintf("after the last reload (generation %d): a new token (generation %d) does not verify against the key set fetched after it (generation %d): %s",
+					lg, tv.Gen, sg, why), Detail: detail})
+			}
+			if tv.Gen >= 0 && sg >= 0 && (tv.Gen != lg || sg != lg) {
+				rec.problem(problem{Sig: "signer-final-generation", Text: fmt.Sprintf("after the last reload (generation %d) had returned a new token names the active key of generation %d and the key set is the one of generation %d",
+					lg, tv.Gen, sg), Detail: detail})
+			}
+		}
+	}
 	res.Problems = rec.problems
 	res.Reused = int(rec.reused.Load())
 	evaluateHistory(&res, rec.evs, u, true, nil)
